@@ -41,8 +41,10 @@
    (the checker reads a signature only through name, type and parameter TYPES: `tc_form_sg`; the
    preliminary checks read a body only through the identifiers of its free names, which are kept);
    `run_decl_src` — verdict and outcome in the THREE modes with no premise on the checker's outputs.
-   NOT proved here: renamings that map two binders of ONE declaration to one identifier (general alpha:
-   `run_alpha_invariant`, a Definition). *)
+   GENERAL ALPHA-EQUIVALENCE inside one declaration (two binders of one declaration sharing an identifier,
+   shadowing): `alpha_step_partial`, `run_alpha_partial`, `C14_run_alpha_partial` — outcome invariance for
+   accepted sources whose annotated outputs are alpha-equivalent declaration by declaration (spec/AlphaEq.v).
+   NOT proved: the checker half for such variants (`run_alpha_invariant` stays a Definition). *)
 From stdpp Require Import gmap strings.
 Require Import Grits.Base Grits.STypes Grits.Forms Grits.Subst Grits.Expand Grits.TcDeps Grits.TcTop Grits.Runtime.
 Require Import Grits.spec.Rename Grits.proofs.RenameTypes Grits.proofs.RenameSubst Grits.proofs.RenameTc
@@ -50,6 +52,7 @@ Require Import Grits.spec.Rename Grits.proofs.RenameTypes Grits.proofs.RenameSub
                Grits.proofs.RenameKeys Grits.proofs.C14Main Grits.proofs.C14Closed Grits.proofs.C14Examples
                Grits.proofs.RenameSimT Grits.proofs.RenameAlpha Grits.proofs.C14Alpha Grits.proofs.C14Decl.
 Require Grits.proofs.TcDeclRename Grits.Tc.
+Require Grits.spec.Alpha Grits.spec.AlphaEq Grits.proofs.AlphaSubst Grits.proofs.AlphaFree Grits.proofs.AlphaStep Grits.proofs.AlphaExamples Grits.proofs.AlphaRun Grits.proofs.C14AlphaEq.
 Require Grits.spec.RtTyping Grits.proofs.RtTheorems Grits.proofs.RtTcSyn Grits.proofs.DeterminismAll.
 Require Grits.spec.SynOk Grits.proofs.TypingVerdict Grits.proofs.DeclPerm Grits.proofs.VerdictInvariant.
 Require Import Coq.Sorting.Permutation.
@@ -232,6 +235,92 @@ Theorem example_runs : run_text Async pick_first ex_text = Some (KQuiescent, ["b
                        run_text Async pick_first ex_text_renamed = Some (KQuiescent, ["avant"; "apres"]).
 Proof. exact ex_run_async. Qed.
 
+(* ---- general alpha-equivalence inside one declaration (spec/AlphaEq.v: `aeq`, bodies up to channels).
+   The ingredients (the assembled step / run / program theorems follow below): A1 — Form.Substitute respects
+   aeq (an entry anywhere in the correspondence; the substitution may stop earlier on one side); FreeNames
+   respects aeq; the transitions of ONE process on erased bodies: reacting to a message (receive, case, wait,
+   shift, forward / drop requests, positive forwards) and the internal transitions cut, drop, split, print. *)
+Theorem alpha_subst_gen_partial : forall X Y c e2, chan X = None -> chan Y = None -> ident X <> "" -> ident Y <> "" ->
+  AlphaEq.isvar c = false -> ident c = "" ->
+  forall f g e1 bl br, AlphaSubst.modes X Y e1 bl br ->
+    AlphaEq.aeq (e1 ++ (ident X, ident Y) :: e2) f g -> AlphaEq.aeq (e1 ++ e2) (AlphaSubst.msub bl X c f) (AlphaSubst.msub br Y c g).
+Proof. intros X Y c e2 H1 H2 H3 H4 H5 H6. exact (proj1 (AlphaSubst.aeq_subst_gen X Y c e2 H1 H2 H3 H4 H5 H6)). Qed.
+
+Theorem alpha_subst_partial : forall e X Y c c' k k', AlphaEq.bnd X Y -> AlphaEq.isvar c = false -> nn' c' = nn' c ->
+  AlphaEq.aeq ((ident X, ident Y) :: e) k k' -> AlphaEq.aeq e (nf' (subst X c k)) (nf' (subst Y c' k')).
+Proof. exact AlphaSubst.aeq_subst_top. Qed.
+
+Theorem alpha_subst_chan_partial : forall old new f g e, initialized old = true -> initialized new = true -> ident new = "" ->
+  AlphaEq.aeq e f g -> AlphaEq.aeq e (subst old new f) (subst old new g).
+Proof. intros old new f g e H1 H2 H3. exact (proj1 (AlphaSubst.aeq_subst_chan old new H1 H2 H3) f g e). Qed.
+
+Theorem alpha_free_names_partial : forall f g, AlphaEq.aeq [] f g -> free_names f = free_names g.
+Proof. exact AlphaFree.aeq_free_closed. Qed.
+
+Theorem alpha_on_message_partial : forall self q q' m, pr_provs q' = pr_provs q -> pr_next q' = pr_next q ->
+  AlphaEq.aeq [] (pr_body0 q) (pr_body0 q') -> AlphaStep.mgood m ->
+  AlphaStep.rrelA (on_message self q m) (on_message self q' m).
+Proof. exact AlphaStep.on_message_A. Qed.
+
+Theorem alpha_internal_partial : forall md F F' self q q', pr_provs q' = pr_provs q -> pr_next q' = pr_next q ->
+  AlphaEq.aeq [] (pr_body0 q) (pr_body0 q') -> AlphaStep.is_callA (pr_body0 q) = false ->
+  AlphaStep.rrelA (internal_effect md F self q) (internal_effect md F' self q').
+Proof. exact AlphaStep.internal_effect_A. Qed.
+
+(* non-vacuity: two sequential binders of one declaration sharing an identifier vs two identifiers *)
+Theorem example_alpha_bodies : AlphaExamples.bodies_aeq AlphaExamples.seq_text AlphaExamples.seq_text_alpha.
+Proof. exact AlphaExamples.seq_aeq. Qed.
+
+(* ---- general alpha-equivalence, assembled (proofs/AlphaRun.v, C14AlphaEq.v).  `crelA`: same pids, for every
+   process the same providers and counter up to identifiers of channels and bodies `aeq []` after erasure,
+   related buffered messages, the same output.  `frelA`: function tables related declaration by declaration
+   (same name, type and explicit provider name, parameters pairwise related binders, erased bodies `aeq`
+   under the stack of parameters).  `alpha_step_partial`: EVERY choice of `step`, the three modes (DUP and
+   calls included).  `run_alpha_partial`: lock-step runs from related configurations, every oracle and fuel.
+   `C14_run_alpha_partial`: accepted sources whose ANNOTATED outputs are related by `decl_aeq`.
+   PARTIAL w.r.t. `RenameRun.run_alpha_invariant` (kept as the Definition of the full goal): missing is the
+   checker half (A3) — that `Alpha.alpha_program p q` and acceptance of both sources imply `decl_aeq p' q'` of the
+   annotated outputs (and, for alpha-variants that respect the checker's freshness conditions, that
+   acceptance of one implies acceptance of the other); `decl_aeq` also asks that the keyword `self` is not
+   used as a binder and that the explicit provider name of a function is the same on both sides. *)
+Theorem alpha_step_partial : forall D F F' teq, RtTyping.funs_typed D F teq -> RtTyping.funs_typed D F' teq ->
+  Forall2 AlphaRun.frelA F F' -> forall md Δ Δ' c c' ch,
+  RtTyping.cfg_typed D F teq Δ c -> RtTyping.cfg_typed D F' teq Δ' c' -> AlphaRun.crelA c c' ->
+  AlphaRun.srrelA (step md D F c ch) (step md D F' c' ch).
+Proof. exact AlphaRun.step_relA. Qed.
+
+Theorem run_alpha_partial : forall D F F' teq, RtTyping.funs_typed D F teq -> RtTyping.funs_typed D F' teq ->
+  Forall2 AlphaRun.frelA F F' -> forall md (I I' : config -> Prop),
+  (forall c, I c -> exists Δ, RtTyping.cfg_typed D F teq Δ c) -> (forall c ch d, I c -> step md D F c ch = SStep d -> I d) ->
+  (forall c, I' c -> exists Δ, RtTyping.cfg_typed D F' teq Δ c) -> (forall c ch d, I' c -> step md D F' c ch = SStep d -> I' d) ->
+  forall pick fuel c c', I c -> I' c' -> AlphaRun.crelA c c' ->
+  kind_of (exec_run fuel pick md D F' c') = kind_of (exec_run fuel pick md D F c) /\
+  labels (final_cfg (exec_run fuel pick md D F' c')) = labels (final_cfg (exec_run fuel pick md D F c)) /\
+  pids (final_cfg (exec_run fuel pick md D F' c')) = pids (final_cfg (exec_run fuel pick md D F c)).
+Proof. exact AlphaRun.run_relA_labels. Qed.
+
+Theorem C14_run_alpha_partial : forall p q p' q' md pick fuel,
+  typecheck p = Accept p' -> typecheck q = Accept q' ->
+  RtTheorems.in_fragment p' -> RtTheorems.in_fragment q' ->
+  SynOk.prog_syn_ok p = true -> SynOk.prog_syn_ok q = true -> RtTcSyn.raw_ok p = true -> RtTcSyn.raw_ok q = true ->
+  DeterminismAll.all_src_b p = true -> DeterminismAll.all_src_b q = true ->
+  C14AlphaEq.decl_aeq p' q' ->
+  kind_of (run_program fuel pick md q') = kind_of (run_program fuel pick md p') /\
+  labels (final_cfg (run_program fuel pick md q')) = labels (final_cfg (run_program fuel pick md p')) /\
+  pids (final_cfg (run_program fuel pick md q')) = pids (final_cfg (run_program fuel pick md p')).
+Proof. exact C14AlphaEq.run_alpha. Qed.
+
+(* non-vacuity: a function with a renamed parameter and two binders sharing one identifier, a process that
+   re-binds x while using it — all premises of C14_run_alpha_partial hold of the two texts *)
+Theorem example_alpha_program : AlphaExamples.progs_aeq AlphaExamples.fun_text AlphaExamples.fun_text_alpha.
+Proof. exact AlphaExamples.fun_decl_aeq. Qed.
+Theorem example_alpha_run : forall p q p' q', parsed AlphaExamples.fun_text = Some p -> parsed AlphaExamples.fun_text_alpha = Some q ->
+  typecheck p = Accept p' -> typecheck q = Accept q' -> forall md pick fuel,
+  kind_of (run_program fuel pick md q') = kind_of (run_program fuel pick md p') /\
+  labels (final_cfg (run_program fuel pick md q')) = labels (final_cfg (run_program fuel pick md p')) /\
+  pids (final_cfg (run_program fuel pick md q')) = pids (final_cfg (run_program fuel pick md p')).
+Proof. exact AlphaExamples.fun_run_alpha. Qed.
+
 Print Assumptions verdict_invariant.
 Print Assumptions verdict_invariant_strong.
 Print Assumptions verdict_invariant_closed.
@@ -264,3 +353,15 @@ Print Assumptions tc_form_sg.
 Print Assumptions example_renamed_ast.
 Print Assumptions example_admissible.
 Print Assumptions example_runs.
+Print Assumptions alpha_subst_gen_partial.
+Print Assumptions alpha_subst_partial.
+Print Assumptions alpha_subst_chan_partial.
+Print Assumptions alpha_free_names_partial.
+Print Assumptions alpha_on_message_partial.
+Print Assumptions alpha_internal_partial.
+Print Assumptions example_alpha_bodies.
+Print Assumptions alpha_step_partial.
+Print Assumptions run_alpha_partial.
+Print Assumptions C14_run_alpha_partial.
+Print Assumptions example_alpha_program.
+Print Assumptions example_alpha_run.
